@@ -129,7 +129,7 @@ func check(c arith.Case, st *core.Stats) error {
 		}
 		return fmt.Errorf("%v: unexpected error %v (flags %s) with an empty trap set", c, o.Err, core.FlagStr(o.Res))
 	}
-	if e.Limit && o.D.Form == apd.NaN && o.Res.InvalidOperation() && c.Op == "quantize" {
+	if e.Limit && arith.QuantizeMayReject(c) && o.D.Form == apd.NaN && o.Res.InvalidOperation() && c.Op == "quantize" {
 		st.Class("limit-class-invalid")
 		return nil // target exponent beyond the +/-100000 package limits: clean rejection
 	}
